@@ -28,6 +28,11 @@ def parseOp (op : String) (args : List Json) : Option Op :=
 
 def handle (s : St) (op : String) (args : List Json) : St × Json :=
   match op, args with
+  | "view", [ns] =>
+    let ns := (jarr ns).map jchars
+    (s, Json.arr #[outJson (iter s),
+      Json.arr (ns.map (fun n => Json.arr #[outJson (contains s n), outJson (getContentType s n),
+                                            outJson (writeFile s n), outJson (getSha s n)])).toArray])
   | "append_counter", [n, i] => (s, ofChars (appendCounter (jchars n) (jnat i)))
   | _, _ =>
     match parseOp op args with
